@@ -630,3 +630,108 @@ def check_C17(tier: str, seed: int) -> int:
 def check_C18(tier: str, seed: int) -> int:
     return _table_check("C18", tier, seed, ["saveload"], "saveload",
                         "every cell of the save/load table (dtype x shape x constant x gradient presence x path kind), exhaustive")
+
+
+# ----------------------------------------------------------------------------- C11: entry points (dispatch table)
+def check_C11(tier: str, seed: int) -> int:
+    from . import dispatch
+    from .driver import reset_global_state
+
+    out = core.Outcome("C11", tier, seed, "model_checking")
+    spec = os.path.join(tlc.SPEC, "tables", "Dispatch.tla")
+    cfg = os.path.join(tlc.SPEC, "tables", "Dispatch.cfg")
+    try:
+        rc, o, wall = tlc.run_tlc(spec, cfg, workers=1, timeout=1200)
+        st = tlc.parse_stats(o)
+        items, bad = replay.parse_behaviours(o)
+        if rc != 0 or st is None or bad or len(items) != st["distinct"]:
+            out.machinery(f"Dispatch.tla failed rc={rc} bad={bad}: {o[-1500:]}")
+        cells = [it["cell"] for it in items]
+        out.judged += len(cells)
+        nb = 0
+        spell = 0
+        for cell in cells:
+            reset_global_state()
+            spell += len(cell["spellings"])
+            try:
+                r = dispatch.run_cell(cell)
+            except Exception as e:  # noqa: BLE001
+                r = ("exception", "none", f"{type(e).__name__}: {str(e)[:120]}")
+            if r is None:
+                continue
+            nb += 1
+            out.violation({"kind": "dispatch-table", "cell": cell, "what": r[0], "reference": r[1], "observed": r[2]},
+                          f"{cell['group']}:{cell['f']} {json.dumps({k: v for k, v in cell.items() if k not in ('spellings', 'group', 'f')})}: "
+                          f"{r[0]}: reference {str(r[1])[:120]} vs {str(r[2])[:120]}")
+        reset_global_state()
+        unc = dispatch.registry_uncovered(cells)
+        out.coverage.update({"states": st["distinct"] if st else 0, "transitions": st["generated"] if st else 0,
+                             "exhaustive": True, "cells_executed": len(cells), "cells_agreeing": len(cells) - nb,
+                             "spellings_evaluated": spell, "traces_validated_against_impl": len(cells),
+                             "registered_names_without_a_table_row": unc})
+        for c in cells[:: max(1, len(cells) // 4)][:4]:
+            out.add_sample({"cell": c}, limit=4)
+    except tlc.MachineryError as e:
+        out.machinery(str(e)[:3000])
+    cov = out.coverage
+    cov["rule"] = ("every cell of spec/tables/Dispatch.tla (operation x operand kinds x argument case) executed with all its "
+                   "spellings on freshly built identical operands; distinct = distinct cells")
+    cov["evaluations"] = cov.get("spellings_evaluated", 0)
+    cov["distinct_nontrivial"] = cov.get("cells_executed", 0)
+    cov["trusted_base"] = ["TLC 1.8 / SANY", "CommunityModules Json", "harness/dispatch.py", "NumPy (non-differentiable families)"]
+    out.assumptions += ["float64 operands; spellings are compared with rtol=atol=1e-12 (they run the same kernel); "
+                        "ufunc.reduce/accumulate/outer/at are not implemented by MyGrad and not in the table"]
+    return out.finish()
+
+
+# ----------------------------------------------------------------------------- C03: agreement with NumPy (promotion table)
+def check_C03(tier: str, seed: int) -> int:
+    from . import promote
+    from .driver import reset_global_state
+
+    out = core.Outcome("C03", tier, seed, "model_checking")
+    spec = os.path.join(tlc.SPEC, "tables", "Promote.tla")
+    cfg = os.path.join(tlc.SPEC, "tables", "Promote.cfg")
+    try:
+        rc, o, wall = tlc.run_tlc(spec, cfg, workers=1, timeout=1200)
+        st = tlc.parse_stats(o)
+        items, bad = replay.parse_behaviours(o)
+        if rc != 0 or st is None or bad or len(items) != st["distinct"]:
+            out.machinery(f"Promote.tla failed rc={rc} bad={bad}: {o[-1500:]}")
+        cells = [it["cell"] for it in items]
+        out.judged += len(cells)
+        nb = 0
+        per = collections.Counter()
+        for cell in cells:
+            reset_global_state()
+            per[cell["group"]] += 1
+            try:
+                r = promote.run_cell(cell)
+            except Exception as e:  # noqa: BLE001
+                r = ("harness-exception", "none", f"{type(e).__name__}: {str(e)[:120]}", True)
+            if r is None:
+                continue
+            what, pred, obs, table_issue = r
+            if table_issue:
+                out.model_mismatches.append({"clause": what, "line": 0, "program": cell, "pred": str(pred), "obs": str(obs)})
+                continue
+            nb += 1
+            out.violation({"kind": "promote-table", "cell": cell, "what": what, "numpy": pred, "mygrad": obs},
+                          f"{cell['group']}:{cell['f']} {json.dumps({k: v for k, v in cell.items() if k not in ('group', 'f')})}: "
+                          f"{what}: NumPy gives {str(pred)[:100]}, MyGrad gives {str(obs)[:100]}")
+        reset_global_state()
+        out.coverage.update({"states": st["distinct"] if st else 0, "transitions": st["generated"] if st else 0,
+                             "exhaustive": True, "cells_executed": len(cells), "cells_agreeing": len(cells) - nb,
+                             "cells_per_group": dict(per), "traces_validated_against_impl": len(cells)})
+        for c in cells[:: max(1, len(cells) // 4)][:4]:
+            out.add_sample({"cell": c}, limit=4)
+    except tlc.MachineryError as e:
+        out.machinery(str(e)[:3000])
+    cov = out.coverage
+    cov["rule"] = ("every cell of spec/tables/Promote.tla (function x operand dtypes / Python scalars x shape x layout x options) "
+                   "evaluated with tracking on, under no_autodiff and by NumPy on the raw arrays; bit-identical values required")
+    cov["evaluations"] = 3 * cov.get("cells_executed", 0)
+    cov["distinct_nontrivial"] = cov.get("cells_executed", 0)
+    cov["trusted_base"] = ["TLC 1.8 / SANY", "CommunityModules Json", "harness/promote.py", "NumPy as value/shape oracle"]
+    out.assumptions += ["dtype lattice {bool, int8, int64, float16/32/64} and Python scalars; order=, casting=, subok= not covered"]
+    return out.finish()
